@@ -103,12 +103,17 @@ static int opt_events = 0, opt_snap = 0, opt_idle = 0;
 static long c20_step = 0;
 static long n_tstarted = 0, n_twritten = 0, n_posted = 0, n_delivered = 0, n_delivered_null = 0;
 static long n_extdec = 0, n_extinc = 0;
+/* writes of whole events into the main VM's self pipe (helper-thread completions + posted events), and the value of that
+ * counter when epoll_wait last REPORTED the self pipe: the pipe is registered edge-triggered, so events that were already in the
+ * pipe at that report and are still there when the loop blocks again will not be reported a second time */
+static long n_pipe_writes = 0, edge_consumed_writes = -1;
 static volatile int loop_finished = 0;
 static int watchdog_secs = 120;
 
 #define IS_MAIN() (main_vm != NULL && &janet_vm == main_vm)
 typedef struct { long susp, lis, inpipe, calls, fibers, lisclosed; } Truth;
 static Truth ground_truth(void);
+static Truth ground_truth_locked(void);
 static __thread int c20_posting = 0;
 /* set between the collector's mark and the end of its sweep (finalisers close descriptors too; only explicit closes are logged) */
 static int c20_in_sweep = 0;
@@ -239,6 +244,35 @@ static size_t count_stale_timers(void) {
     return s;
 }
 
+/* ------------------------------------------------------------------------------ shadow signal-handler table */
+
+/* os/sigaction (os.c, not wrapped) keeps the installed handler functions in janet_vm.signal_handlers and pins them with
+ * janet_gcroot; the operation is observed by diffing that table between observation points */
+#define C20_NSIG 65
+static JanetFunction *shsig[C20_NSIG];
+
+static JanetFunction *signal_handler_of(int sig) {
+    Janet h = janet_table_get(&janet_vm.signal_handlers, janet_wrap_integer(sig));
+    return janet_checktype(h, JANET_FUNCTION) ? janet_unwrap_function(h) : NULL;
+}
+
+static int count_signal_handlers(void) {
+    int n = 0;
+    for (int sig = 1; sig < C20_NSIG; sig++) if (signal_handler_of(sig)) n++;
+    return n;
+}
+
+static void observe_signals(void) {
+    if (!opt_events || !IS_MAIN()) return;
+    for (int sig = 1; sig < C20_NSIG; sig++) {
+        JanetFunction *h = signal_handler_of(sig);
+        if (h != shsig[sig]) {
+            out("E sigaction %d %s\n", sig, h ? "install" : "remove");
+            shsig[sig] = h;
+        }
+    }
+}
+
 /* --------------------------------------------------------------------------------------------- hooks */
 
 typedef struct { void *(*start)(void *); void *arg; } ThreadTramp;
@@ -279,10 +313,13 @@ static const char *cb_kind(JanetSelfPipeEvent *e) {
 static ssize_t c20_read(const char *fn, int fd, void *buf, size_t n) {
     ssize_t r = read(fd, buf, n);
     if (r > 0 && IS_MAIN() && fd == main_vm->selfpipe[0] && !strcmp(fn, "janet_ev_handle_selfpipe")) {
+        /* one event per read in the code as it is; a reader that fetches several whole events at once is followed too */
         JanetSelfPipeEvent *e = buf;
         pthread_mutex_lock(&c20_mu);
-        if (e->cb) n_delivered++; else n_delivered_null++;
-        if (opt_events) out("E deliver %s\n", cb_kind(e));
+        for (size_t k = 0; (k + 1) * sizeof(JanetSelfPipeEvent) <= (size_t) r; k++) {
+            if (e[k].cb) n_delivered++; else n_delivered_null++;
+            if (opt_events) out("E deliver %s\n", cb_kind(&e[k]));
+        }
         pthread_mutex_unlock(&c20_mu);
     }
     return r;
@@ -295,6 +332,7 @@ static ssize_t c20_write(const char *fn, int fd, const void *buf, size_t n) {
         ssize_t r = write(fd, buf, n);
         if (r > 0) {
             n_twritten++;
+            n_pipe_writes++;
             JanetThreadedCallback cb = ((const JanetSelfPipeEvent *) buf)->cb;
             int known = 0;
             for (int i = 0; i < n_call_cbs; i++) if (call_cbs[i] == cb) known = 1;
@@ -306,6 +344,7 @@ static ssize_t c20_write(const char *fn, int fd, const void *buf, size_t n) {
     if (c20_posting && !strcmp(fn, "janet_ev_post_event")) {
         ssize_t r = write(fd, buf, n);
         if (r > 0) {
+            n_pipe_writes++;
             if (opt_events) out("E post %s\n", ((const JanetSelfPipeEvent *) buf)->cb ? "cb" : "null");
             c20_posting = 0;
             pthread_mutex_unlock(&c20_mu);
@@ -363,6 +402,7 @@ static JanetSignal c20_continue(JanetFiber *f, Janet v, Janet *o, JanetSignal si
     JanetSignal s = janet_continue_signal(f, v, o, sig);
     if (IS_MAIN() && opt_events) {
         int susp = (s == JANET_SIGNAL_EVENT || s == JANET_SIGNAL_YIELD || s == JANET_SIGNAL_INTERRUPT);
+        observe_signals();
         out("E ran f%ld %s\n", fid_of(f), susp ? "suspended" : "finished");
         observe_timers(1);
         observe_queue();
@@ -381,15 +421,47 @@ static int c20_epoll_wait(int epfd, struct epoll_event *events, int maxevents, i
         pthread_mutex_unlock(&c20_mu);
     }
     if (IS_MAIN() && (opt_snap || opt_idle) && count_stale_timers() == janet_vm.tq_count) {
-        /* about to block with no live timer: if no event can be in flight (self pipe empty, no helper thread running) and
-         * every stream listener sits on a closed descriptor, nothing can ever wake the loop again although tasks are waiting */
-        Truth t = ground_truth();
-        if (t.inpipe + t.calls == 0 && t.lis == t.lisclosed && t.susp + t.lis > 0) {
+        /* about to block with no live timer: if no event can be in flight (no helper thread running; self pipe empty, or what it
+         * holds was already there when its edge was last reported and no event has been written since, so that the edge-triggered
+         * registration will not report it again) and every stream listener sits on a closed descriptor, nothing can ever wake the
+         * loop again although tasks are waiting */
+        pthread_mutex_lock(&c20_mu);
+        Truth t = ground_truth_locked();
+        int stranded = t.inpipe > 0 && edge_consumed_writes >= 0 && n_pipe_writes == edge_consumed_writes;
+        long writes = n_pipe_writes, consumed = edge_consumed_writes;
+        pthread_mutex_unlock(&c20_mu);
+        if ((t.inpipe == 0 || stranded) && t.calls == 0 && t.lis == t.lisclosed && t.susp + t.lis + t.inpipe > 0) {
             pthread_mutex_lock(&c20_mu);
-            out("NO-WAKE-SOURCE step=%ld lc=%d suspended=%ld listeners=%ld listeners-on-closed-streams=%ld tq=%zu (all stale)\n", c20_step,
-                (int) janet_atomic_load(&janet_vm.listener_count), t.susp, t.lis, t.lisclosed, janet_vm.tq_count);
+            if (stranded)
+                out("SELFPIPE-STRANDED step=%ld lc=%d in-pipe=%ld suspended=%ld listeners=%ld written=%ld written-at-last-report=%ld delivered=%ld "
+                    "(events left in the edge-triggered self pipe after its handler returned; no helper thread, live timer or open listener can wake the loop)\n",
+                    c20_step, (int) janet_atomic_load(&janet_vm.listener_count), t.inpipe, t.susp, t.lis, writes, consumed, n_delivered + n_delivered_null);
+            else
+                out("NO-WAKE-SOURCE step=%ld lc=%d suspended=%ld listeners=%ld listeners-on-closed-streams=%ld tq=%zu (all stale)\n", c20_step,
+                    (int) janet_atomic_load(&janet_vm.listener_count), t.susp, t.lis, t.lisclosed, janet_vm.tq_count);
             fflush(stdout);
-            _exit(6);
+            _exit(stranded ? 7 : 6);
+        }
+    }
+    if (IS_MAIN() && (opt_snap || opt_idle)) {
+        /* the same stranded events seen at many consecutive polls (live timers keep the loop turning, e.g. a task that sleeps and
+         * looks again): the pipe held events at every one of them, nothing was written in between, it was never reported, and no
+         * helper thread is left that could write.  Counted in polls, not in time.  (On a draining handler the condition cannot
+         * hold even once: whatever is in the pipe when the loop polls was written after the handler's last, failing, read.) */
+        static long stranded_polls = 0;
+        pthread_mutex_lock(&c20_mu);
+        Truth t = ground_truth_locked();
+        int stranded = t.inpipe > 0 && edge_consumed_writes >= 0 && n_pipe_writes == edge_consumed_writes && t.calls == 0;
+        pthread_mutex_unlock(&c20_mu);
+        stranded_polls = stranded ? stranded_polls + 1 : 0;
+        if (stranded_polls >= 50) {
+            pthread_mutex_lock(&c20_mu);
+            out("SELFPIPE-STRANDED step=%ld lc=%d in-pipe=%ld suspended=%ld listeners=%ld written=%ld delivered=%ld tq=%zu "
+                "(the same events sat in the edge-triggered self pipe through %ld consecutive polls, nothing was written, no helper thread is running)\n",
+                c20_step, (int) janet_atomic_load(&janet_vm.listener_count), t.inpipe, t.susp, t.lis, n_pipe_writes, n_delivered + n_delivered_null,
+                janet_vm.tq_count, stranded_polls);
+            fflush(stdout);
+            _exit(7);
         }
     }
     if (IS_MAIN() && (opt_snap || opt_idle) && janet_vm.tq_count == 0) {
@@ -414,7 +486,16 @@ static int c20_epoll_wait(int epfd, struct epoll_event *events, int maxevents, i
             _exit(5);
         }
     }
-    return epoll_wait(epfd, events, maxevents, timeout);
+    int ready = epoll_wait(epfd, events, maxevents, timeout);
+    if (IS_MAIN() && ready > 0) {
+        for (int i = 0; i < ready; i++) if (events[i].data.ptr == (void *) janet_vm.selfpipe) {
+                /* the self pipe's edge is consumed by this report: whatever has been written up to now must be read by the handler */
+                pthread_mutex_lock(&c20_mu);
+                edge_consumed_writes = n_pipe_writes;
+                pthread_mutex_unlock(&c20_mu);
+            }
+    }
+    return ready;
 }
 
 /* process-wide count of live channels / locks / rwlocks (all threads): created minus finalised */
@@ -560,9 +641,10 @@ static long count_threads(void) {
 static void snapshot(const char *tag) {
     pthread_mutex_lock(&c20_mu);
     Truth t = ground_truth_locked();
-    out("S %ld %s lc=%d tq=%zu rq=%d roots=%zu stale=%zu done=%d | susp=%ld lis=%ld inpipe=%ld calls=%ld nullev=%ld lisclosed=%ld\n",
+    out("S %ld %s lc=%d tq=%zu rq=%d roots=%zu stale=%zu done=%d | susp=%ld lis=%ld inpipe=%ld calls=%ld nullev=%ld lisclosed=%ld pw=%ld pd=%ld sigh=%d\n",
         c20_step, tag, (int) janet_atomic_load(&janet_vm.listener_count), janet_vm.tq_count, (int) janet_q_count(&janet_vm.spawn),
-        janet_vm.root_count, count_stale_timers(), janet_loop_done(), t.susp, t.lis, t.inpipe, t.calls, n_delivered_null, t.lisclosed);
+        janet_vm.root_count, count_stale_timers(), janet_loop_done(), t.susp, t.lis, t.inpipe, t.calls, n_delivered_null, t.lisclosed,
+        n_pipe_writes, n_delivered + n_delivered_null, count_signal_handlers());
     pthread_mutex_unlock(&c20_mu);
 }
 
@@ -596,19 +678,21 @@ static Janet cfun_measure(int32_t argc, Janet *argv) {
     return janet_wrap_nil();
 }
 
-/* (c20/stats) -> [listener_count tq_count runq root_count block_count outstanding-by-ground-truth] */
+/* (c20/stats) -> [listener_count tq_count runq root_count block_count outstanding-by-ground-truth events-in-self-pipe helper-threads-running] */
 static Janet cfun_stats(int32_t argc, Janet *argv) {
     (void) argv;
     janet_fixarity(argc, 0);
-    Janet tup[6];
+    Janet tup[8];
     Truth t = ground_truth();
+    tup[6] = janet_wrap_integer((int32_t) t.inpipe);
+    tup[7] = janet_wrap_integer((int32_t) t.calls);
     tup[5] = janet_wrap_integer((int32_t)(t.susp + t.lis + t.inpipe + t.calls));
     tup[0] = janet_wrap_integer((int32_t) janet_atomic_load(&janet_vm.listener_count));
     tup[1] = janet_wrap_integer((int32_t) janet_vm.tq_count);
     tup[2] = janet_wrap_integer(janet_q_count(&janet_vm.spawn));
     tup[3] = janet_wrap_integer((int32_t) janet_vm.root_count);
     tup[4] = janet_wrap_integer((int32_t) janet_vm.block_count);
-    return janet_wrap_tuple(janet_tuple_n(tup, 6));
+    return janet_wrap_tuple(janet_tuple_n(tup, 8));
 }
 
 /* (c20/loop1-interrupt) : the public API janet_loop1_interrupt on this VM */
@@ -628,7 +712,27 @@ static Janet cfun_pending(int32_t argc, Janet *argv) {
     return janet_wrap_integer((st->read_fiber != NULL) + (st->write_fiber != NULL));
 }
 
+/* (c20/raise sig) : raise(3) on the loop's own thread - the handler installed by os/sigaction runs before this returns, on the
+ * thread whose VM it posts to, and never inside one of the harness' critical sections */
+static Janet cfun_raise(int32_t argc, Janet *argv) {
+    janet_fixarity(argc, 1);
+    int sig = janet_getinteger(argv, 0);
+    if (sig != SIGUSR1 && sig != SIGUSR2 && sig != SIGWINCH && sig != SIGURG) janet_panicf("c20/raise: signal %d not allowed", sig);
+    return janet_wrap_integer(raise(sig));
+}
+
+/* (c20/op name) : the script tells the model which operation of a file the harness does not wrap (filewatch.c) it has just
+ * performed; the model predicts the bookkeeping, the comparison with janet_vm after the step judges it */
+static Janet cfun_op(int32_t argc, Janet *argv) {
+    janet_fixarity(argc, 1);
+    const uint8_t *s = janet_to_string(argv[0]);
+    if (opt_events) out("E op %s\n", (const char *) s);
+    return janet_wrap_nil();
+}
+
 static const JanetReg c20_cfuns[] = {
+    {"c20/raise", cfun_raise, NULL},
+    {"c20/op", cfun_op, NULL},
     {"c20/pending", cfun_pending, NULL},
     {"c20/log", cfun_log, NULL},
     {"c20/measure", cfun_measure, NULL},
@@ -641,6 +745,10 @@ static const JanetReg c20_cfuns[] = {
 
 static void *watchdog(void *arg) {
     (void) arg;
+    /* process-directed signals must not be handled here: the trampoline posts to the handling thread's own (thread-local) VM */
+    sigset_t all;
+    sigfillset(&all);
+    pthread_sigmask(SIG_BLOCK, &all, NULL);
     for (int i = 0; i < watchdog_secs * 10; i++) {
         struct timespec ts = {0, 100000000};
         nanosleep(&ts, NULL);
